@@ -38,7 +38,7 @@ type c20Case struct {
 	Resend bool `json:"resend,omitempty"`
 }
 
-var c20TextNames = []string{"esc-at-start", "plain", "triple-inside", "multiline-esc", "esc-not-at-start", "esc-then-percent-verbs"}
+var c20TextNames = []string{"esc-at-start", "plain", "triple-inside", "multiline-esc", "esc-not-at-start", "esc-then-percent-verbs", "bare-esc-without-text", "esc-and-one-character"}
 
 func c20Text(kind, code int, sd ...string) (lines []string, leadESC string) {
 	cls := code / 100
@@ -55,6 +55,10 @@ func c20Text(kind, code int, sd ...string) (lines []string, leadESC string) {
 		return []string{"relay from 10.4.7.1 denied by 172.5.1.9"}, ""
 	case 3:
 		return []string{esc + " first line", esc + " second line"}, esc
+	case 6:
+		return []string{esc}, esc
+	case 7:
+		return []string{esc + " x"}, esc
 	case 5:
 		return []string{esc + " quota 100% used (%s %d %v %!x) for <user%domain@example>"}, esc
 	default:
@@ -87,7 +91,7 @@ func c20Exec(r *vf.Run, k c20Case) (keys, whats []string) {
 		txn := f.Msg + 1
 		mk := func(code int) refsmtp.Action {
 			lines, _ := c20Text(f.Text, code, f.SD)
-			return refsmtp.Action{Kind: refsmtp.ActReply, Code: code, Text: lines}
+			return refsmtp.Action{Kind: refsmtp.ActReply, Code: code, Text: lines, NoTag: f.Text >= 6}
 		}
 		_, lead := c20Text(f.Text, f.Code, f.SD)
 		e := &exp[f.Msg]
@@ -132,7 +136,7 @@ func c20Exec(r *vf.Run, k c20Case) (keys, whats []string) {
 	for _, f := range k.Fails {
 		if f.Pos == "RSET" {
 			lines, _ := c20Text(f.Text, f.Code, f.SD)
-			rsetFor[f.Msg+1] = refsmtp.Action{Kind: refsmtp.ActReply, Code: f.Code, Text: lines}
+			rsetFor[f.Msg+1] = refsmtp.Action{Kind: refsmtp.ActReply, Code: f.Code, Text: lines, NoTag: f.Text >= 6}
 		}
 	}
 	base := posScript(over)
@@ -340,7 +344,7 @@ func init() {
 	vf.Register(&vf.Check{
 		ID: "C20", Title: "SendError reflects the server's verdict",
 		Run: func(r *vf.Run) {
-			r.SetRule("every reply code 400..599 × 6 reply-text kinds (enhanced code at start / plain / dotted triple inside / multi-line / enhanced code not at start / text with '%' format verbs; enhanced codes with every subject/detail field of 1..3 digits from {0,1,7,10,77,100,255|509,999}) × position {MAIL, every non-empty subset of 3 RCPTs (mixed codes), DATA, end-of-data, RSET} × failing message 1..3 of a batch of 3 × ENHANCEDSTATUSCODES advertised or not, plus all pairs of failing messages; the oracle is a reference function of the replies the server actually sent; distinct by case tuple")
+			r.SetRule("every reply code 400..599 × 8 reply-text kinds (enhanced code at start / plain / dotted triple inside / multi-line / enhanced code not at start / text with '%' format verbs / the bare enhanced code without any text / the enhanced code and one character; enhanced codes with every subject/detail field of 1..3 digits from {0,1,7,10,77,100,255|509,999}) × position {MAIL, every non-empty subset of 3 RCPTs (mixed codes), DATA, end-of-data, RSET} × failing message 1..3 of a batch of 3 × ENHANCEDSTATUSCODES advertised or not, plus all pairs of failing messages; the oracle is a reference function of the replies the server actually sent; distinct by case tuple")
 			r.Assume("the list of rejected recipients is read from SendError.Error() (no exported accessor)", "a message whose delivery succeeded but whose trailing RSET failed counts as delivered")
 			var cases []c20Case
 			codes := []int{}
@@ -378,7 +382,7 @@ func init() {
 					for _, pos := range []string{"MAIL", "RCPT", "DATA", "EOD", "RSET"} {
 						for _, sub := range []int{0, 1, 7, 10, 77, 100, 255, 999} {
 							for _, det := range []int{0, 1, 7, 10, 77, 100, 509, 999} {
-								for _, text := range []int{0, 3} {
+								for _, text := range []int{0, 3, 6, 7} {
 									cases = append(cases, c20Case{ESC: esc, M: 3, R: 3, Fails: []c20Fail{{Msg: (sub + det) % 3, Pos: pos, Mask: 1 + (sub+det)%7, Code: code, Text: text, SD: fmt.Sprintf("%d.%d", sub, det)}}})
 								}
 							}
